@@ -418,6 +418,119 @@ def _is_fresh_rhs(P, K, F, e):
     return False
 
 
+def count_pairs(P):
+    """(record, array field) -> (record, count field): the release functions free the elements of an owning pointer array in a
+    loop `for(i=0;i<x->count;i++) free(x->array[i])`; derived from the release functions on every run"""
+    pairs = {}
+    for rel in sorted(set(RELEASE_OF.values())):
+        R = P.get(rel)
+        if R is None:
+            continue
+        for h, body in cfg.loops(R).items():
+            t = R.blocks[h].get('term')
+            if not t or t.get('cond') is None:
+                continue
+            cn = R.ex[R.strip_casts(t['cond'])]
+            if cn['k'] != 'bin' or cn['op'] != '<':
+                continue
+            iv = R.ex[R.strip_casts(cn['c'][0])]
+            cf = R.ex[R.strip_casts(cn['c'][1])]
+            if iv['k'] != 'ref' or cf['k'] != 'member' or 'record' not in cf:
+                continue
+            for c in R.calls():
+                if R.pos[c][0] not in body:
+                    continue
+                for a in R.ex[c].get('c', []):
+                    an = R.ex[R.strip_casts(a)]
+                    if an['k'] == 'sub':
+                        b = R.ex[R.strip_casts(an['c'][0])]
+                        i2 = R.ex[R.strip_casts(an['c'][1])]
+                        if b['k'] == 'member' and 'record' in b and i2['k'] == 'ref' and i2['decl'].get('id') == iv['decl'].get('id'):
+                            pairs[(b['record'], b['field'])] = (cf['record'], cf['field'], rel)
+    return pairs
+
+
+def r13_8(chk, P, K, res):
+    chk.rule('R13.8', 'where a release function frees the elements of an owning pointer array in a loop bounded by a count field '
+             '(pairs derived from the release functions), every store of fresh memory into an element of that array is covered '
+             'by the count whenever the release function can run: the index is below the count field at the store (K4 symbolic '
+             'bound), or the count is raised past the index (append / raise idiom) before any exit or clear call')
+    pairs = count_pairs(P)
+    chk.require(len(pairs) >= 5, f'only {len(pairs)} (array, count) pairs derived from the release functions')
+    sk = k8.Skel(P, 'r')
+    n = 0
+    for F in P.functions():
+        k = P.key(F)
+        if k not in res:
+            continue
+        stores = []
+        for e in sorted(F.pos):
+            nd = F.ex[e]
+            if nd['k'] != 'assign' or nd['op'] != '=':
+                continue
+            l = F.ex[F.strip_casts(nd['c'][0])]
+            if l['k'] != 'sub':
+                continue
+            b = F.ex[F.strip_casts(l['c'][0])]
+            if b['k'] != 'member' or (b.get('record'), b.get('field')) not in pairs:
+                continue
+            if not _is_fresh_rhs(P, K, F, nd['c'][1]):
+                continue
+            stores.append((e, (b['record'], b['field'])))
+        if not stores:
+            continue
+        vals = {}
+
+        def obs(A, env, e, v):
+            if e in [s[0] for s in stores] and A.last_index[0] is not None:
+                lhs = A.F.strip_casts(A.ex[e]['c'][0])
+                if A.last_index[0] == lhs:
+                    vals[e] = absint.join(vals.get(e), A.last_index[1]) if e in vals else A.last_index[1]
+        A = absint.Analyzer(P, F)
+        A.observers.append(obs)
+        A.run()
+        for e, af in stores:
+            crec, cfld, rel = pairs[af]
+            csym = f'{crec}.{cfld}'
+            nd = F.ex[e]
+            l = F.ex[F.strip_casts(nd['c'][0])]
+            idx = F.strip_casts(l['c'][1])
+            itxt = F.s(idx)
+            v = vals.get(e)
+            ok = v is not None and csym in v.lt
+            why = f'index {v} is below {csym} at the store'
+            if not ok:
+                # the count is raised past the index on every path from the store to an exit / clear call
+                def raises(n_, itxt=itxt, crec=crec, cfld=cfld):
+                    x = F.ex[n_]
+                    if x['k'] == 'un' and x['op'] in ('post++', 'pre++'):
+                        t = F.ex[F.strip_casts(x['c'][0])]
+                        return t['k'] == 'member' and t.get('record') == crec and t['field'] == cfld and F.s(F.strip_casts(x['c'][0])) == itxt
+                    if x['k'] == 'assign' and x['op'] == '=':
+                        t = F.ex[F.strip_casts(x['c'][0])]
+                        if t['k'] == 'member' and t.get('record') == crec and t['field'] == cfld:
+                            r = F.ex[F.strip_casts(x['c'][1])]
+                            if r['k'] == 'bin' and r['op'] == '+' and F.s(F.strip_casts(r['c'][0])) == itxt and \
+                                    F.ex[F.strip_casts(r['c'][1])].get('v') == 1:
+                                # `if(count<=idx) count=idx+1`: the guarding test, when false, already covers the index
+                                return True
+                    if x['k'] == 'bin' and x['op'] in ('<=', '>=', '<', '>'):
+                        a, b_ = F.s(F.strip_casts(x['c'][0])), F.s(F.strip_casts(x['c'][1]))
+                        cm = [y for y in (x['c'][0], x['c'][1]) if F.ex[F.strip_casts(y)].get('record') == crec and F.ex[F.strip_casts(y)].get('field') == cfld]
+                        if cm and itxt in (a, b_):
+                            return True
+                    return False
+                path = cfg.reaches_exit_avoiding(F, F.pos[e], raises)
+                ok = path is None
+                why = f'{csym} is raised past {itxt} before any exit' if ok else \
+                    f'{F.s(nd["c"][0])} receives fresh memory with index {v}, not known to be below {csym}, and the function can exit ' \
+                    f'(or call {rel}) before the count covers it: {rel} would not free this element'
+            n += 1
+            same = [x for x, a2 in stores if a2 == af]
+            chk.ob('R13.8', k, f'covered-by-count:{af[0]}.{af[1]}#{same.index(e)}', ok, F.where(e), why)
+    return n
+
+
 def r13_6(chk, P, K):
     chk.rule('R13.6', 'static_codebook objects and their lists are freed only in vorbis_staticbook_destroy, and there only under '
              'the allocedp test; allocedp is set non-zero only in vorbis_staticbook_unpack: the shared const encoder codebooks '
@@ -458,6 +571,8 @@ def run(chk, P):
     chk.floor('R13.4', 8)
     r13_6(chk, P, K)
     chk.floor('R13.6', 4)
+    r13_8(chk, P, K, res)
+    chk.floor('R13.8', 8)
     chk.rule('R13.7', 'the close callback has exactly one call site, in ov_clear, guarded by a non-null data source, and failed '
              'opens detach the source first (same obligations as R12.3); ov_clear wipes the handle (R13.3a), so a second '
              'ov_clear sees no data source')
